@@ -104,6 +104,27 @@ def op_case(ctx: Ctx, stream: str, i: int) -> None:
         if rng.random() < 0.4:
             op = op.T
         ctx.count('index-form:' + form)
+    elif stream == 'toeplitz':
+        # every small (length, number of bands, method, transform size, band batch) combination: data shorter than the
+        # kernel, a single band, explicit minimal / odd / default transform sizes, one band row per detector
+        from furax.operators.toeplitz import SymmetricBandToeplitzOperator
+        n = 1 + i % 9
+        K = 1 + (i // 9) % 5
+        method, fft = [('overlap_save', None), ('overlap_save', 'min'), ('dense', None), ('direct', None), ('fft', None),
+                       ('overlap_save', 'odd'), ('overlap_save', None)][(i // 45 + i) % 7]
+        batch = rng.choice([(), (), (2,), (1,)])
+        dt = rng.choice([jnp.float32, jnp.float32, jnp.float64 if jax.config.jax_enable_x64 else jnp.float32])
+        band = np.array([rng.choice([4.0, 1.0, -1.0, 0.5, 2.0]) for _ in range(int(np.prod(batch + (K,))))]).reshape(batch + (K,))
+        kw = {}
+        if fft == 'min':
+            kw['fft_size'] = 2 * K - 1
+        elif fft == 'odd':
+            kw['fft_size'] = 2 * K - 1 + rng.choice([2, 4, 1, 3])
+        s = jax.ShapeDtypeStruct(((2,) if batch else rng.choice([(), (3,)])) + (n,), dt)
+        op = SymmetricBandToeplitzOperator(jnp.asarray(band, dtype=dt), s, method=method, **kw)
+        if rng.random() < 0.3:
+            op = op @ gen.mk_identity(rng, s) if rng.random() < 0.5 else 2.0 * op
+        ctx.count(f'toeplitz:{method}:{fft}')
     elif stream == 'inverse':
         # a lazy inverse (iterative solve needing several steps), alone or inside a composition
         s = gen.S(rng.choice([5, 6, 8]))
@@ -281,6 +302,9 @@ def run(ctx: Ctx) -> None:
     for i in range(60 if q else 1500):
         if ctx.want('index', i):
             op_case(ctx, 'index', i)
+    for i in range(90 if q else 630):
+        if ctx.want('toeplitz', i):
+            op_case(ctx, 'toeplitz', i)
     for i in range(16 if q else 300):
         if ctx.want('inverse', i):
             op_case(ctx, 'inverse', i)
